@@ -8,14 +8,15 @@ type skey_ = { key : string; payload : string; pttl : int; vanish : string; valu
 type case = {
   tdb : int; policy : string; threshold : int; dbblack : string list; dbwhite : string list; keyblack : string list; keywhite : string list;
   scancount : int; src : (int * skey_ list list) list;
-  tgt : (int * string * C02.pre) list; note : string }
+  tgt : (int * string * C02.pre) list; note : string;
+  keyfile : string list option (* scan.key_file: the lines of the file (keys looked up in the single source database) *) }
 
 let id = "C16"
 let rule = "source keyspaces of 1..4 databases with 0..25 keys each (plain and compact encodings, payload sizes around the big-key threshold), SCAN paginations with \
 empty pages, single-key pages and pages larger/smaller than scan.key_number, keys gone before DUMP / between DUMP and PTTL / never existing, ttl none / positive, \
 x big-key threshold (1, median payload, huge) x key_exists none/rewrite x target.db x db/key lists x scan.key_number in {1,3,100}; the real rump executor \
 (hook: fetcher, writer, receiver, scanner) from a fakeredis source to a fakeredis target in child processes; separate sub-streams: a key returned twice by SCAN, \
-a busy target key under rewrite with a big key; non-trivial = at least 2 databases or a vanished key or a big key; distinct by wire line"
+a busy target key under rewrite with a big key, scans driven by a key file (scan.key_file) of 0..9 lines against scan.key_number 1..3 (multiples and off-by-one, lines naming keys that do not exist); non-trivial = at least 2 databases or a vanished key or a big key; distinct by wire line"
 
 let bs = bytes_of_string
 let gen_value st =
@@ -66,11 +67,25 @@ let gen_case st =
         (List.concat_map (fun (db, pages) -> List.map (fun k -> (db, k)) (List.concat pages)) src))
     else [] in
   { tdb; policy; threshold = rnd_pick st [ 1; max 1 median; 1000000000; 1000000000 ];
-    dbblack; dbwhite; keyblack; keywhite; scancount = rnd_pick st [ 1; 3; 100 ]; src; tgt; note = "" }
+    dbblack; dbwhite; keyblack; keywhite; scancount = rnd_pick st [ 1; 3; 100 ]; src; tgt; note = ""; keyfile = None }
+
+let base = { tdb = -1; policy = "rewrite"; threshold = 1000000000; dbblack = []; dbwhite = []; keyblack = []; keywhite = []; scancount = 100; src = []; tgt = []; note = ""; keyfile = None }
+(* a key file drives the scan: n lines (0, 1, multiples of scan.key_number and off-by-one), some naming keys that do not exist;
+   the source database additionally holds a key the file does not name *)
+let gen_keyfile_case st =
+  let count = rnd_pick st [ 1; 2; 3 ] in
+  let n = rnd_pick st [ 0; 1; count; count + 1; 2 * count; 2 * count + 1; 3 * count ] in
+  let db = rnd_pick st [ 0; 0; 2 ] in
+  let lines = List.init n (fun i -> if rnd_int st 5 = 0 then Printf.sprintf "gone%d" i else Printf.sprintf "kf%d" i) in
+  let existing = List.filter_map (fun name -> if String.sub name 0 2 = "kf" then
+      (let (payload, v) = gen_value st in Some { key = name; payload; pttl = rnd_pick st [ -1; -1; 40000 ]; vanish = "-"; value = Some v }) else None) lines in
+  let extra = { key = "unlisted"; payload = fst (gen_value st); pttl = -1; vanish = "-"; value = None } in
+  { base with policy = rnd_pick st [ "none"; "rewrite" ]; scancount = count; src = [ (db, [ existing @ [ extra ] ]) ]; keyfile = Some lines;
+              note = Printf.sprintf "key file of %d lines, scan.key_number %d" n count }
 
 let gen st tier = List.init (if tier = "thorough" then 2500 else 160) (fun _ -> gen_case st)
+                  @ List.init (if tier = "thorough" then 300 else 24) (fun _ -> gen_keyfile_case st)
 
-let base = { tdb = -1; policy = "rewrite"; threshold = 1000000000; dbblack = []; dbwhite = []; keyblack = []; keywhite = []; scancount = 100; src = []; tgt = []; note = "" }
 let lst l = string_of_bytes (encode_dump fmt_g17 (LList (List.map bs l)))
 let corpus = [
   (* F18: a big list key over a busy target key under rewrite *)
@@ -88,6 +103,7 @@ let to_line c =
     (if c.src = [] then "-" else String.concat "/" (List.map (fun (db, pages) -> Printf.sprintf "%d:%s" db
         (String.concat ";" (List.map (fun p -> String.concat "," (List.map (fun k -> Printf.sprintf "%s~%s~%d~%s" (hexd k.key) (hexd k.payload) k.pttl k.vanish) p)) pages))) c.src))
     (if c.tgt = [] then "-" else String.concat ";" (List.map (fun (db, k, (p : C02.pre)) -> Printf.sprintf "%d:%s:%s:%s:%d" db (hexd k) p.pkind (C02.content p.pval) p.pttl) c.tgt))
+  ^ (match c.keyfile with None -> "" | Some lines -> " kf=" ^ String.concat "," (List.map hexd lines))
 let show c =
   Printf.sprintf "%starget.db=%d key_exists=%s big_key_threshold=%d db.black=[%s] db.white=[%s] key.black=[%s] key.white=[%s] scan.key_number=%d; source: %s; target before: %d key(s)"
     (if c.note = "" then "" else c.note ^ "; ") c.tdb c.policy c.threshold (String.concat "," c.dbblack) (String.concat "," c.dbwhite) (String.concat "," c.keyblack) (String.concat "," c.keywhite) c.scancount
@@ -95,11 +111,20 @@ let show c =
         (String.concat ";" (List.map (fun p -> "[" ^ String.concat "," (List.map (fun k -> Printf.sprintf "%s(%dB,pttl %d%s)" k.key (String.length k.payload) k.pttl (if k.vanish = "-" then "" else ",gone at " ^ k.vanish)) p) ^ "]") pages))) c.src))
     (List.length c.tgt)
 
-let all_keys c = List.concat_map (fun (db, pages) -> List.map (fun k -> (db, k)) (List.concat pages)) c.src
+(* the key occurrences the scan returns, with what the source answers for them *)
+let all_keys c =
+  match c.keyfile with
+  | None -> List.concat_map (fun (db, pages) -> List.map (fun k -> (db, k)) (List.concat pages)) c.src
+  | Some lines ->
+      let (db, pages) = List.hd c.src in
+      let have = List.concat pages in
+      List.map (fun name -> match List.find_opt (fun k -> k.key = name) have with
+        | Some k -> (db, k) | None -> (db, { key = name; payload = ""; pttl = -2; vanish = "-"; value = None })) lines
 let classify c =
   let ks = all_keys c in
   let big = List.exists (fun (_, k) -> String.length k.payload >= c.threshold && k.pttl <> -2) ks in
   let gone = List.exists (fun (_, k) -> k.pttl = -2) ks in
+  if c.keyfile <> None then Some (Printf.sprintf "keyfile:%s:scan%d" c.policy c.scancount) else
   if List.length c.src < 2 && not big && not gone then None else
   Some (Printf.sprintf "%ddb%s%s:%s:scan%d" (List.length c.src) (if big then "+big" else "") (if gone then "+gone" else "") c.policy c.scancount)
 
@@ -108,8 +133,11 @@ let fail kind sig_ model impl detail = Fail { kind; sig_; model; impl; detail }
 let fcfg_of c = { key_black = List.map bs c.keyblack; key_white = List.map bs c.keywhite; db_black = List.map bs c.dbblack; db_white = List.map bs c.dbwhite;
                   slot_list = []; filter_lua = false }
 let rcfg_of c = { r_f = fcfg_of c; r_tdb = z_of_int c.tdb; r_threshold = z_of_int c.threshold; r_rewrite = (c.policy = "rewrite") }
-let msrc c = List.map (fun (db, pages) -> { sd_db = z_of_int db; sd_pages = List.map (List.map (fun k ->
-    { sk_key = bs k.key; sk_dump = (if k.vanish = "dump" || (k.pttl = -2 && k.vanish = "-") then None else Some (bs k.payload)); sk_pttl = z_of_int k.pttl })) pages }) c.src
+let mkey k = { sk_key = bs k.key; sk_dump = (if k.vanish = "dump" || (k.pttl = -2 && k.vanish = "-") then None else Some (bs k.payload)); sk_pttl = z_of_int k.pttl }
+let msrc c =
+  match c.keyfile with
+  | None -> List.map (fun (db, pages) -> { sd_db = z_of_int db; sd_pages = List.map (List.map mkey) pages }) c.src
+  | Some _ -> let (db, _) = List.hd c.src in [ { sd_db = z_of_int db; sd_pages = [ List.map (fun (_, k) -> mkey k) (all_keys c) ] } ]
 
 let has_prefix k p = String.length k >= String.length p && String.sub k 0 (String.length p) = p
 let judge c obs =
